@@ -206,7 +206,7 @@ func main() {
 		swg.Add(1)
 		go func() { defer swg.Done(); twoShims(r); oversizeForward(r); handedOutSigners(r); slowUpstream(r); stalledPeer(r) }()
 		swg.Add(1)
-		go func() { defer swg.Done(); parkedWaiter(r); addVsRemoveAll(r); slowExchange(r) }()
+		go func() { defer swg.Done(); parkedWaiter(r); listAfterOwnAdd(r); addVsRemoveAll(r); slowExchange(r) }()
 		defer swg.Wait()
 		rounds := r.Pick(300, 6000)
 		overlap := map[string]int{}
